@@ -35,7 +35,7 @@ Definition CLASSIFIED : list (string * string * skind * nat * gkind * bool) := [
   ("filter.rs", "convert", ById, 1, KStack, G_FILTER_CHECK && G_FLIST_VIA_URL);
   ("filter.rs", "convert_image_inner", AttrNode, 1, KStack, G_FILTER_PUSH);
   ("filter.rs", "find_filter_with_primitives", HrefIter, 1, KSteps, G_HREF_STEPS);
-  ("marker.rs", "convert", AttrNode, 1, KStack, G_MARKER_CHECK && G_MARKER_PUSH);
+  ("marker.rs", "convert", AttrNode, 1, KStack, G_MARKER_CHECK && G_MARKER_PUSH && G_MARKER_LIMIT);
   ("marker.rs", "is_valid", AttrNode, 3, KOneStep, true);
   ("mask.rs", "convert", AttrNode, 1, KStack, G_MASK_CHECK && G_MASK_PUSH);
   ("mask.rs", "is_cacheable", AttrNode, 1, KVisited, G_MASK_CHAIN_VISITED);
@@ -53,7 +53,7 @@ Definition CLASSIFIED : list (string * string * skind * nat * gkind * bool) := [
   ("svgtree/parse.rs", "find_recursive_pattern", ById, 1, KOneStep, G_PRE_PAT_SCOPE);
   ("svgtree/parse.rs", "fix_recursive_fe_image", NodeAttr, 1, KOneStep, G_PRE_FEIMAGE);
   ("svgtree/parse.rs", "parse_svg_use_element", UseHref, 2, KInProgress, G_USE_ORIGIN && G_USE_PUSH);
-  ("text.rs", "resolve_text_flow", AttrNode, 1, KOneStep, true)
+  ("text.rs", "resolve_text_flow", AttrNode, 1, KOneStep, G_TEXTPATH_NO_FOLLOW)
 ].
 
 Definition site_matches (s : string * string * skind * nat) (c : string * string * skind * nat * gkind * bool) : bool :=
@@ -65,3 +65,9 @@ Definition site_matches (s : string * string * skind * nat) (c : string * string
 Definition site_covered (s : string * string * skind * nat) : bool := existsb (site_matches s) CLASSIFIED.
 Definition uncovered_sites : list (string * string * skind * nat) := filter (fun s => negb (site_covered s)) SITES.
 Definition sites_covered : bool := match uncovered_sites with [] => true | _ => false end.
+
+(* final pass: files whose functions receive a referenced element but must not follow any reference from it:
+   shapes.rs (textPath -> path geometry), switch.rs (the selected child is converted like any child) *)
+Definition site_file (s : string * string * skind * nat) : string := match s with (f, _, _, _) => f end.
+Definition no_follow_files : bool :=
+  forallb (fun s => negb (String.eqb (site_file s) "shapes.rs" || String.eqb (site_file s) "switch.rs")) SITES.
